@@ -100,12 +100,36 @@ Proof.
 Qed.
 Print Assumptions C17_reader_error_after_values_partial.
 
-(* Decode never reports success without consuming input - full strength, every state / reader / stream:
-   a returned value has consumed at least one byte, and nil-without-a-value is not a result of Decode *)
+(* Decode never reports success without consuming input - every state reached from a fresh decoder (scanp <= len(buf),
+   see C17_buffered_total), every reader and stream: a returned value has consumed at least one byte, and
+   nil-without-a-value is not a result of Decode *)
 Theorem C17_decode_progress : forall avx2 st v st',
-  Decode (skip_one_fast avx2) inner_decode st = (RVal v, st') -> (InputOffset st < InputOffset st')%nat.
+  BInv st -> Decode (skip_one_fast avx2) inner_decode st = (RVal v, st') -> (InputOffset st < InputOffset st')%nat.
 Proof. exact decode_progress_value. Qed.
 Print Assumptions C17_decode_progress.
+
+(* InputOffset(), exact accounting (/repo 012b3b6): scanned + len(buf) + bytes not yet delivered - the length of the
+   stream for a decoder started on it - is unchanged by every successful Decode, so InputOffset() is exactly the number
+   of bytes that are no longer pending, whatever the chunking *)
+Theorem C17_input_offset_exact : forall avx2 st v st',
+  BInv st -> Decode (skip_one_fast avx2) inner_decode st = (RVal v, st') ->
+  acct st' = acct st /\ (InputOffset st' + length (pending st'))%nat = acct st.
+Proof. exact input_offset_exact. Qed.
+Print Assumptions C17_input_offset_exact.
+
+Example C17_acct_fresh : forall r pc, acct (new_decoder r pc) = length (rd_bytes r).
+Proof. exact acct_new_decoder. Qed.
+
+(* ... and after a value it lies between the end of that value and the beginning of the next token (positions in the
+   byte stream: acct st minus what is left) - bounds that do not mention the reader's cuts *)
+Theorem C17_input_offset_bounds : forall avx2 st n v,
+  Inv st -> BInv st ->
+  gv_step avx2 (rfin (rd st)) (drop_ws (pending st)) = GVal n v ->
+  exists st', Decode (skip_one_fast avx2) inner_decode st = (RVal v, st') /\
+    (acct st - length (skipn n (drop_ws (pending st))) <= InputOffset st')%nat /\
+    (InputOffset st' <= acct st - length (drop_ws (skipn n (drop_ws (pending st)))))%nat.
+Proof. exact input_offset_bounds. Qed.
+Print Assumptions C17_input_offset_bounds.
 
 Theorem C17_decode_never_nil : forall avx2 st, Inv st -> fst (Decode (skip_one_fast avx2) inner_decode st) <> RNil.
 Proof. exact decode_never_nil. Qed.
@@ -189,14 +213,14 @@ Print Assumptions C17_enc_indent_path.
 
 (* ---- the former refutation witnesses now agree with the specification (regression cases, also in corpus/C17) *)
 Theorem C17_former_witnesses_fixed : forall avx2,
-  run avx2 4096 w_split = stream_values (rd_bytes w_split) EOF /\
-  run avx2 4096 w_sign = ([[45; 53]], TIo EOF) /\ run avx2 4096 w_exp = ([[49; 101; 53]], TIo EOF) /\
-  run avx2 4096 w_swallow = stream_values (rd_bytes w_swallow) EOF /\
-  run avx2 4096 (w_tail EOF) = stream_values (rd_bytes (w_tail EOF)) EOF /\ snd (run avx2 4096 (w_tail EOF)) = TSyntax /\
-  run avx2 4096 w_garbage = stream_values (rd_bytes w_garbage) EOF /\
-  run avx2 4096 w_stuck = stream_values (rd_bytes w_stuck) EOF /\ snd (run avx2 4096 w_stuck) = TSyntax /\
+  run avx2 64 w_split = stream_values (rd_bytes w_split) EOF /\
+  run avx2 64 w_sign = ([[45; 53]], TIo EOF) /\ run avx2 64 w_exp = ([[49; 101; 53]], TIo EOF) /\
+  run avx2 64 w_swallow = stream_values (rd_bytes w_swallow) EOF /\
+  run avx2 64 (w_tail EOF) = stream_values (rd_bytes (w_tail EOF)) EOF /\ snd (run avx2 64 (w_tail EOF)) = TSyntax /\
+  run avx2 64 w_garbage = stream_values (rd_bytes w_garbage) EOF /\
+  run avx2 64 w_stuck = stream_values (rd_bytes w_stuck) EOF /\ snd (run avx2 64 w_stuck) = TSyntax /\
   fst (Encode (Some [123; 125]) None true w_nl) = EErr (WErr 7).
-Proof. intros []; vm_compute; repeat split; reflexivity. Qed.
+Proof. exact former_witnesses_fixed. Qed.
 Print Assumptions C17_former_witnesses_fixed.
 
 (* ---- what is still false: full strength over all streams and readers.  Stream -557- read from a reader that then
@@ -206,7 +230,7 @@ Proof. exact chunk_independent_refuted. Qed.
 Print Assumptions C17_stream_chunk_independent_refuted.
 
 Theorem C17_number_run_before_reader_error_refuted : forall avx2,
-  run avx2 4096 w_numrun = ([], TIo (ErrR 1)) /\
+  run avx2 64 w_numrun = ([], TIo (ErrR 1)) /\
   stream_values (rd_bytes w_numrun) (ErrR 1) = ([[45; 53; 53; 55]], TIo (ErrR 1)).
 Proof. exact number_run_before_reader_error_witness. Qed.
 Print Assumptions C17_number_run_before_reader_error_refuted.
